@@ -28,6 +28,13 @@
 // into the environment of the process that runs the step, and one environment
 // string of 128 KiB or more makes every later execve of that process fail.
 //
+// Redirect-file families (redirectFamilies): the `stdout:` / `stderr:` files
+// exist before the run with known content; `stdout:` and `stderr:` name the same
+// file; two dependent steps share their redirect files.  The redirect files are
+// opened for appending, so besides the last attempt's bytes they must hold what
+// every execution of the child wrote (attempt after attempt, step after step)
+// behind what they held before the run.
+//
 // Oracle, evaluated after Schedule returned (exactly the property): the file
 // named by the node's final State().Log contains every byte the last attempt
 // wrote to stdout and to stderr (stderr: in the `stderr:` file instead when one
